@@ -7,19 +7,60 @@ package crl
 
 //@ pred revoked(cl) = cl.TBSCertList.RevokedCertificates
 
-// CheckCRLForCert (RFC 5280, 5.1 and 5.3): the result describes the CRL (signature value,
-// version, update times, issuer copied) and says whether the certificate's serial number is
-// among the revoked entries (linear search when no cache is given; the cache maps the
-// decimal serial to the entry).
+// gatherListExtensionInfo (RFC 5280 5.2; C14 "extension classification"): proved here: no
+// panic and termination for every CRL (asn1.Unmarshal of the CRL number assumed not to panic).
+// The frame is left open (`modifies all`): the loop summary of govc does not keep the frame
+// across asn1.Unmarshal into the loop-local variable ext. What the caller CheckCRLForCert
+// needs - it writes the CRL number and the two extension lists of ret and nothing else that
+// existed before - is an ASSUMED frame (refine block in /verif/extern/revocation.contracts).
+// Not stated: that every extension is classified into exactly one of the three classes in
+// order (quantified facts about appended struct elements), see the notes.
+//@ func gatherListExtensionInfo
+//@   requires certList != nil && ret != nil
+//@   modifies all
+//@   terminates
+
+// ghost.bigEq(x, y): the integers stored at x and y are equal (decided by (*big.Int).Cmp);
+// ghost.bigStr(x, s): s is the decimal text of *x ((*big.Int).String); both in
+// /verif/extern/bigint.contracts.
+// Quantifiers over list positions: spec.at is the identity (/verif/specs/revocation.smt2), so
+// ix(i) is true; it only plants the trigger term at(i) (index arithmetic inside a trigger is
+// matched syntactically by the solver and is unreliable).
+//@ pred ix(i) = spec.at(i) == i
+//@ pred hit(cl, cert, j) = ghost.bigEq(revoked(cl)[j].SerialNumber, cert.SerialNumber)
+// "none of the first n revoked entries has cert's serial number"
+//@ pred noHit(cl, cert, n) = forall(j, 0, n, ix(j) ==> !hit(cl, cert, j), spec.at(j))
+//@ pred serialsOK(cl) = forall(i, 0, len(revoked(cl)), ix(i) ==> revoked(cl)[i].SerialNumber != nil, spec.at(i))
+
+// CheckCRLForCert (RFC 5280, 5.1 and 5.3; property C14): the result describes the CRL
+// ([copied]: signature value, version, update times, issuer) and, WITHOUT a cache,
+// [exact_listed]/[exact_only] reports the certificate as revoked exactly when its serial
+// number is among the revoked entries, [time] with the revocation time of the FIRST such
+// entry (for every j: if entry j has the serial number and no earlier entry has it, the
+// reported time is entry j's).
+// WITH a cache the answer is the cache's: [cached_hit]/[cached_miss] revoked exactly when the
+// decimal text of the serial number is a key, [cached_time] with the time of the entry stored
+// under it. [cache_equiv] For a cache that is consistent with the list (consistent(): a key
+// is present exactly for the decimal texts of listed serial numbers, and carries the
+// revocation time of the first entry with that number) this is the linear search's answer.
+//@ pred keyOf(cert, k) = ghost.bigStr(cert.SerialNumber, k)
+//@ pred textOf(cl, i, k) = ghost.bigStr(revoked(cl)[i].SerialNumber, k)
+// entry i is the first one whose serial number has the decimal text k
+//@ pred firstText(cl, i, k) = textOf(cl, i, k) && forall(j, 0, i, ix(j) ==> !textOf(cl, j, k), spec.at(j))
+//@ pred consistent(cache, cl) = forallv(k, string, has(cache, k) ==> !forall(i, 0, len(revoked(cl)), ix(i) ==> !(firstText(cl, i, k) && same(cache[k].RevocationTime, revoked(cl)[i].RevocationTime)), spec.at(i))) && forall(i, 0, len(revoked(cl)), ix(i) ==> forallv(k, string, textOf(cl, i, k) ==> has(cache, k)), spec.at(i))
 //@ func CheckCRLForCert
 //@   uses perreturn
-//@   requires certList != nil && cert != nil && cert.SerialNumber != nil
-//@   requires forall(i, 0, len(revoked(certList)), revoked(certList)[i].SerialNumber != nil)
+//@   requires certList != nil && cert != nil && cert.SerialNumber != nil && serialsOK(certList)
 //@   requires forallv(k, string, has(cache, k) ==> cache[k] != nil)
+//@   loop 1 invariant ix(it) && noHit(certList, cert, it)
 //@   ensures [fresh]   result1 == nil && result0 != nil && fresh(result0)
 //@   ensures [copied]  same(result0.CRLSignatureValue, certList.SignatureValue.Bytes) && result0.Version == certList.TBSCertList.Version && same(result0.ThisUpdate, certList.TBSCertList.ThisUpdate) && same(result0.NextUpdate, certList.TBSCertList.NextUpdate) && same(result0.Issuer.OriginalRDNS, certList.TBSCertList.Issuer)
-//@   ensures [empty]   cache == nil && len(revoked(certList)) == 0 ==> !result0.IsRevoked
-//@   ensures [time]    cache == nil && result0.IsRevoked ==> exists(i, 0, len(revoked(certList)), same(result0.RevocationTime, revoked(certList)[i].RevocationTime))
-//@   ensures [cached]  cache != nil && result0.IsRevoked ==> !forallv(k, string, !(has(cache, k) && same(result0.RevocationTime, cache[k].RevocationTime)))
-//@   ensures [nocache] cache != nil && forallv(k, string, !has(cache, k)) ==> !result0.IsRevoked
+//@   ensures [exact_listed] cache == nil && !result0.IsRevoked ==> noHit(certList, cert, len(revoked(certList)))
+//@   ensures [exact_only]   cache == nil && result0.IsRevoked ==> !noHit(certList, cert, len(revoked(certList)))
+//@   ensures [time]    cache == nil && result0.IsRevoked ==> forall(j, 0, len(revoked(certList)), ix(j) && hit(certList, cert, j) && noHit(certList, cert, j) ==> same(result0.RevocationTime, revoked(certList)[j].RevocationTime), spec.at(j))
+//@   ensures [cached_hit]  cache != nil ==> forallv(k, string, keyOf(cert, k) && has(cache, k) ==> result0.IsRevoked && same(result0.RevocationTime, cache[k].RevocationTime))
+//@   ensures [cached_miss] cache != nil ==> forallv(k, string, keyOf(cert, k) && !has(cache, k) ==> !result0.IsRevoked)
+//@   ensures [equiv_listed] cache != nil && consistent(cache, certList) && !result0.IsRevoked ==> noHit(certList, cert, len(revoked(certList)))
+//@   ensures [equiv_only]   cache != nil && consistent(cache, certList) && result0.IsRevoked ==> !noHit(certList, cert, len(revoked(certList)))
+//@   ensures [equiv_time]   cache != nil && consistent(cache, certList) && result0.IsRevoked ==> forall(j, 0, len(revoked(certList)), ix(j) && hit(certList, cert, j) && noHit(certList, cert, j) ==> same(result0.RevocationTime, revoked(certList)[j].RevocationTime), spec.at(j))
 //@   terminates
